@@ -413,7 +413,7 @@ func TestC14(t *testing.T) {
 			jobs = append(jobs, job{h: h, chunk: uint64(c), after: c%2 == 0})
 		}
 	}
-	rep.Rule = fmt.Sprintf("(a) all histories of <=%d steps over {upload A / A' (shares a leaf with A) / C to r1, r2 or a repo of an extra context sharing the blob store; delete last bundle; squash} x every index chunk size 1..#keys+1 (alternating with/without an upload between index build and delete-unused, and scan parallelism 2 / 1, i.e. as many / fewer scanner slots than repositories of a context), blobs aged one fake second: union of chunk files = exactly the referenced roots+leaves, no key twice, one header time = index time; after delete-unused the blob store = referenced + newer-than-index; (a') 4 first histories (two with a 12-leaf file: >10 chunks at chunk size 1) x 6 further upload sequences x chunk sizes {1,2,3,7}: index, more uploads, index again with the resume option: again exactly the referenced keys, each once, one header time, delete-unused keeps every referenced blob; (b) 2..3 PurgeLock contenders (+force, +unlock) under all interleavings; distinct = distinct (history, chunk size)", depth)
+	rep.Rule = fmt.Sprintf("(a) all histories of <=%d steps over {upload A / A' (shares a leaf with A) / C to r1, r2 or a repo of an extra context sharing the blob store; delete last bundle; squash} x every index chunk size 1..#keys+1 (alternating with/without an upload between index build and delete-unused, and scan parallelism 2 / 1, i.e. as many / fewer scanner slots than repositories of a context), blobs aged one fake second: union of chunk files = exactly the referenced roots+leaves, no key twice, one header time = index time; after delete-unused the blob store = referenced + newer-than-index; (a') 4 first histories (two with a 12-leaf file: >10 chunks at chunk size 1) x 6 further upload sequences x chunk sizes {1,2,3,7}: index, more uploads, index again with the resume option: again exactly the referenced keys, each once, one header time, delete-unused keeps every referenced blob; (b) 2..3 PurgeLock contenders (+force, +unlock) under all interleavings; (c) an index build (chunk size 2, 4 bundles over 2 contexts) with every store call gated and the uploader's 5-minute ticker firing between any two of them (1 tick, thorough 2), no fault: the index is still exact; distinct = distinct (history, chunk size)", depth)
 	parent := lib.RunCases(t, rep, "TestC14", len(jobs), 0, 180*time.Second, func(i int) {
 		if jobs[i].then != nil {
 			c14resume(t, rep, jobs[i].h, jobs[i].then, jobs[i].chunk)
@@ -433,6 +433,81 @@ func TestC14(t *testing.T) {
 	rep.Set("resumed_builds", nResume)
 	rep.Sample(map[string]interface{}{"history": fmt.Sprint(jobs[len(jobs)/2].h), "chunk_size": jobs[len(jobs)/2].chunk})
 	c14locks(t, rep)
+	c14ticks(t, rep)
+}
+
+// ---- (c) no fault, but a slow scan: the 5-minute ticker of the chunk uploader may fire between any two store calls
+func c14ticks(t *testing.T, rep *lib.Report) {
+	gates := map[string]func(string, string) bool{"meta": allCalls, "blob": allCalls}
+	sc := &lib.Scenario{Name: "index-build-with-uploader-ticks", Ticks: []time.Duration{5 * time.Minute}}
+	sc.Setup = func(x *lib.Exec) {
+		cw := c14new()
+		for _, st := range []c14step{{"upload", "r1", "A"}, {"upload", "r2", "A'"}, {"upload", "x:r3", "C"}, {"upload", "r1", "B"}} {
+			if err := cw.apply(st); err != nil {
+				panic(err)
+			}
+		}
+		time.Sleep(time.Second)
+		dir, err := os.MkdirTemp("", "verif-c14t-")
+		if err != nil {
+			panic(err)
+		}
+		x.Data["cw"], x.Data["dir"] = cw, dir
+	}
+	opts := func(x *lib.Exec, cw *c14world, sub string) []core.PurgeOption {
+		return []core.PurgeOption{core.WithPurgeLocalStore(x.Data["dir"].(string) + "/" + sub), core.WithPurgeLogger(nopLogger), core.WithPurgeIndexChunkSize(2),
+			core.WithPurgeExtraContexts([]context2.Stores{cw.extra.Stores()}), core.WithPurgeParallel(1)}
+	}
+	sc.Phases = [][]lib.ClientFn{{func(x *lib.Exec, id int) error {
+		cw := x.Data["cw"].(*c14world)
+		_, err := core.PurgeBuildReverseIndex(cw.w.Gated(x, id, gates), opts(x, cw, "kv0")...)
+		return err
+	}}}
+	sc.Final = func(x *lib.Exec) {
+		defer os.RemoveAll(x.Data["dir"].(string))
+		cw := x.Data["cw"].(*c14world)
+		ticks := 0
+		for _, s := range x.Steps {
+			if strings.HasPrefix(s.Granted, "tick") {
+				ticks++
+			}
+		}
+		x.SetOutcome(fmt.Sprintf("ticks=%d;%s", ticks, errTag(x.ClientErr[0])))
+		if x.Hung {
+			x.Violate("C14|ticks|index-build-hangs", "never returned")
+			return
+		}
+		if x.ClientErr[0] != nil {
+			x.Violate("C14|ticks|index-build-error", x.ClientErr[0].Error())
+			return
+		}
+		want := cw.referenced()
+		keys, _, chunks, perr := c14readIndex(cw.w.Meta)
+		if perr != nil {
+			x.Violate("C14|ticks|index-chunk-malformed", perr.Error())
+			return
+		}
+		for k, n := range keys {
+			if n > 1 {
+				x.Violate("C14|ticks|index-key-listed-twice", fmt.Sprintf("key %s appears %d times across %d chunks (uploader fired %d times during the scan)", k[:8], n, chunks, ticks))
+			}
+			if !want[k] {
+				x.Violate("C14|ticks|index-has-unreferenced-key", fmt.Sprintf("key %s", k[:8]))
+			}
+		}
+		for k := range want {
+			if keys[k] == 0 {
+				x.Violate("C14|ticks|index-misses-referenced-key", fmt.Sprintf("key %s is referenced by a live bundle but is in none of the %d chunks (the uploader's ticker fired %d times during the scan)", k[:8], chunks, ticks))
+				break
+			}
+		}
+	}
+	e := &lib.Explorer{Sc: sc, PreemptBound: 0, FaultBound: 1, MaxExecs: 50000, Budget: 8 * time.Minute}
+	if lib.Thorough() {
+		e.FaultBound = 2
+	}
+	e.Explore(t, rep)
+	rep.Set("executions:"+sc.Name, e.Execs)
 }
 
 // ---- (b) purge lock
